@@ -51,10 +51,14 @@ def make(which, with_pref):
                 # allowed failures: invalid input (ValueError), SVD failure, QP solver returning None (ValueError)
                 flags = [x for x in cx.pc if "fails" in str(x) or "returns_none" in str(x)]
                 external = z3.Or([f for f in flags]) if flags else z3.BoolVal(False)
+                solver_raised = any("fails_with_ProblemError" in str(f) and not z3.is_not(f) for f in flags)
                 cx.oblige(f"{tag}.raises_only_if_invalid_or_solver_failure",
-                          z3.And(v.cls == "ValueError", z3.Or(z3.Not(valid), external)))
+                          z3.And(v.cls == "ValueError" or (solver_raised and v.cls == "ProblemError"), z3.Or(z3.Not(valid), external)))
                 return
             cx.oblige(f"{tag}.accepts_only_valid", valid)
+            # a result is returned only when every solver call succeeded: a failure is never papered over
+            pos = [x for x in cx.pc if ("fails" in str(x) or "returns_none" in str(x)) and z3.is_const(x)]
+            cx.oblige(f"{tag}.returns_only_if_the_solver_succeeded", len(pos) == 0)
             small, G0, G1 = S.RNG(it, J, a, b)
             u = pref if with_pref else S.mean_weights(it, J)
             with cx.mute():
